@@ -28,16 +28,19 @@ TDiag == /\ Ev("diag") /\ Active
          /\ Renders(Rec[l])
          /\ IF ColOK(Rec[l], cur.mods) THEN TRUE ELSE Note("col")
          /\ IF RenderClean(Rec[l]) THEN TRUE ELSE Note("render-not-clean")
-         /\ seen' = Append(seen, [code |-> Rec[l].code, start |-> Rec[l].start, end |-> Rec[l].end])
+         /\ seen' = Append(seen, [code |-> Rec[l].code, start |-> Rec[l].start, end |-> Rec[l].end, line |-> Rec[l].line, file |-> Rec[l].file])
          /\ l' = l + 1 /\ UNCHANGED <<cur, done>>
 TEndRun == /\ Ev("diags-end") /\ Active
-           /\ ("fault" \in DOMAIN cur) => Covers(seen, cur.fault)
+           \* (compared with TRUE so that TLC EVALUATES the quantifiers: as conjuncts of an action every witness of every \E
+           \* is a successor of its own -- ten expected places with ten candidates each were 10^10 successor states)
+           /\ ("fault" \in DOMAIN cur) => (Covers(seen, cur.fault) = TRUE)
+           /\ ("faults" \in DOMAIN cur) => ((\A x \in 1..Len(cur.faults) : CoversAt(seen, cur.faults[x])) = TRUE)
            /\ cur' = Idle /\ seen' = <<>> /\ l' = l + 1 /\ UNCHANGED done
 TNormal == TInput \/ TDiag \/ TEndRun
 
 RECURSIVE NextInput(_)
 NextInput(x) == IF x > Len(Rec) THEN x ELSE IF Rec[x].ev = "diags-input" THEN x ELSE NextInput(x + 1)
-Why == IF ~Ev("diag") THEN (IF Ev("diags-end") THEN "fault-not-covered" ELSE "malformed")
+Why == IF ~Ev("diag") THEN (IF Ev("diags-end") THEN (IF "faults" \in DOMAIN cur THEN "variant-not-covered" ELSE "fault-not-covered") ELSE "malformed")
        ELSE IF Rec[l].code \notin Producible THEN "code-unknown"
        ELSE IF FileOf(cur.mods, Rec[l].file) = {} THEN "file-unknown"
        ELSE IF ~\A i \in FileOf(cur.mods, Rec[l].file) : InsideFile(Rec[l], cur.mods[i]) THEN "span-outside-file"
